@@ -60,6 +60,10 @@ func (interp *Interpreter) compileSrc(src, name string, inc bool) (*Program, err
 	if err != nil {
 		return nil, err
 	}
+	if n == nil {
+		// The source is excluded by its build constraints.
+		return nil, nil
+	}
 
 	return interp.CompileAST(n)
 }
@@ -143,6 +147,10 @@ func (interp *Interpreter) Execute(p *Program) (res reflect.Value, err error) {
 }
 
 func (interp *Interpreter) execute(p *Program) (res reflect.Value, err error) {
+	if p == nil {
+		// Nothing to execute, e.g. a source excluded by its build constraints.
+		return res, nil
+	}
 	defer func() {
 		r := recover()
 		if r != nil {
